@@ -150,6 +150,15 @@ void fill_gamma(Gamma& g) {
   g.asts.emplace("F1", p.AST());
   if (!p.Parse("P1:==[a\xE2\x88\x88\xE2\x84\xAC(R1)] a=a", Syntax::MATH)) harness_die("cannot parse P1 definition");
   g.asts.emplace("P1", p.AST());
+  // F2: a LONG definition whose body fails at a LEAF late in its text (D9 is typed but has no value; Z cannot be iterated): errors raised
+  // inside an inlined body must still be positioned inside the (short) calling expression
+  g.types.emplace("D9", x1.Bool()); g.vclass.emplace("D9", rs::ValueClass::value);
+  g.types.emplace("F2", x1.Bool()); g.args["F2"] = { rs::TypedID{ "a", x1.Bool() } }; g.vclass.emplace("F2", rs::ValueClass::value);
+  if (!p.Parse("F2:==[a\xE2\x88\x88\xE2\x84\xAC(X1)] D{x\xE2\x88\x88" "a | x\xE2\x88\x88" "a & x\xE2\x88\x88" "a & x\xE2\x88\x88" "a & x\xE2\x88\x88" "a}\xE2\x88\xAA" "D9", Syntax::MATH)) harness_die("cannot parse F2 definition");
+  g.asts.emplace("F2", p.AST());
+  g.types.emplace("F3", rs::Typification::Integer().Bool()); g.args["F3"] = { rs::TypedID{ "a", x1.Bool() } }; g.vclass.emplace("F3", rs::ValueClass::props);
+  if (!p.Parse("F3:==[a\xE2\x88\x88\xE2\x84\xAC(X1)] D{x\xE2\x88\x88Z | card(a)=card(a) & card(a)=card(a) & x=x & x=x & x=x}", Syntax::MATH)) harness_die("cannot parse F3 definition");
+  g.asts.emplace("F3", p.AST());
   g.data.emplace("X1", Factory::SetV({ 1, 2 })); g.data.emplace("X2", Factory::SetV({ 1, 2, 3 })); g.data.emplace("C1", Factory::SetV({ 1, 2, 3 }));
   g.data.emplace("S1", Factory::Set({ Factory::TupleV({ 1, 1 }), Factory::TupleV({ 1, 2 }) }));
   g.data.emplace("D1", Factory::SetV({ 1 })); g.data.emplace("D2", Factory::Val(1));
@@ -515,7 +524,7 @@ const std::vector<std::string>& seeds() {
     // setexpr_binary
     "1 + 2", "2 - 1", "2 * 2", "X1 " U_UNION " D1", "X1 \\ D1", "X1 " U_SYMDIFF " D1", "X1 " U_INTERSECT " D1", "X1 " U_DECART " X2", "X1 " U_DECART " X1 " U_DECART " X1", "( X1 " U_UNION " D1 ) \\ D1", "C1 " U_UNION " { 1 }",
     // function call, text_function
-    "F1 [ D1 ]", "F1 [ D1 , D1 ]", "bool ( D2 )", "debool ( { D2 } )", "red ( { D1 } )", "Pr1 ( S1 )", "Pr1,2 ( S1 )", "pr2 ( ( D2 , D2 ) )", "card ( X1 )",
+    "F1 [ D1 ]", "F1 [ D1 , D1 ]", "F2 [ D1 ]", "card ( F2 [ D1 ] )", "F3 [ D1 ]", "bool ( D2 )", "debool ( { D2 } )", "red ( { D1 } )", "Pr1 ( S1 )", "Pr1,2 ( S1 )", "pr2 ( ( D2 , D2 ) )", "card ( X1 )",
     // setexpr_generators
     "{ D2 }", "{ D2 , D2 }", "( D2 , D2 )", U_BOOL " ( X1 )", U_BOOL " " U_BOOL " ( X1 )",
     "Fi1 [ D1 ] ( S1 )", "Fi1,2 [ D1 , D1 ] ( S1 )", "Fi1,2 [ S1 ] ( S1 )",
